@@ -1087,7 +1087,12 @@ def _apply_corruption(h5, c, d, touched, info):
         var = a % 8
         free = [f for f in ("area_msd", "aspect", "bright_sd", "tilt", "userdef3")
                 if f not in ev]
-        where = ["events", "events", "logs", "top", "tables"][b % 5]
+        where = ["events", "events", "logs", "top", "tables", "contour-item",
+                 "trace-item"][b % 7]
+        if where == "contour-item" and not ("contour" in ev and len(ev["contour"])):
+            where = "events"
+        if where == "trace-item" and not ("trace" in ev and len(ev["trace"])):
+            where = "events"
         d = pathlib.Path(h5.filename).parent    # relative links resolve here
         tgt = d / f"ext{len(touched)}.h5"
         if var <= 5:
@@ -1102,6 +1107,20 @@ def _apply_corruption(h5, c, d, touched, info):
                 name, src = "logs/ext-log", "/l"
             elif where == "tables":
                 name, src = "tables/ext-tab", "/d"
+            elif where in ("contour-item", "trace-item"):
+                # one member of a feature *group* is a link (same data behind it)
+                grp = ev["contour" if where == "contour-item" else "trace"]
+                keys = sorted(grp.keys())
+                k = keys[cc % len(keys)]
+                name, src = f"{grp.name.lstrip('/')}/{k}", "/m"
+                if not claim(f"ds:{name}"):
+                    return None
+                with h5py.File(tgt, "a") as e:
+                    e["m"] = np.array(grp[k])
+                del h5[name]
+                h5[name] = h5py.ExternalLink(str(tgt) if var else tgt.name, src)
+                return {"cls": f"ext/link/{where}", "kf": None,
+                        "need": [("format HDF5", ["external link"])]}
             else:
                 name, src = "ext-group", "/"
             if name in h5 or not claim(f"ds:{name}"):
@@ -1127,6 +1146,8 @@ def _apply_corruption(h5, c, d, touched, info):
                     "need": [("format HDF5", ["external link"])]}
         # dangling link (target file does not exist)
         touched.discard(f"ds:{name}")
+        if where in ("contour-item", "trace-item"):
+            where = "events"     # dangling links inside feature groups: not generated
         name = {"events": name, "logs": "logs/ext-log", "tables": "tables/ext-tab",
                 "top": "ext-group"}[where]
         if name in h5 or not claim(f"ds:{name}"):
